@@ -32,8 +32,9 @@ theorem C20_no_hidden_overhead (L : DynLeaves MF Tok) {mode : Mode} (S : Sound L
       8 * (close L c (run L c (WState.init L dst) ops).1).1.dst.bytes.length = E.length + B.length + rest.length ∧
       rest.length < 8 := by
   have ht := run_tracks L S c hw ops [] (WState.init L dst) (tracks_init L S dst hh hd) hops hok
-  obtain ⟨_, _, n, q, E, B, rest, hc, hb, hbytes, hl, _⟩ := close_tracks L S c _ _ ht
+  obtain ⟨_, _, ⟨n, q, E, B, rest, hc, hb, hbytes, hl, _⟩, _⟩ := close_tracks L S c _ _ ht
   refine ⟨n, q, E, B, rest, hc, hb, ?_, hl⟩
+  rw [body_zero] at hbytes
   have := congrArg List.length hbytes
   simp only [bytesToBits_length, List.length_append] at this
   omega
